@@ -15,6 +15,7 @@ import (
 	"strings"
 	"sync"
 	"sync/atomic"
+	"time"
 
 	"go.sia.tech/core/types"
 	"go.sia.tech/coreutils/chain"
@@ -30,7 +31,7 @@ func main() { hx.Main("C04", run) }
 
 // An Ev is one step of a history.
 type Ev struct {
-	K   string     `json:"k"` // op | spawn | poll | pool
+	K   string     `json:"k"` // op | spawn | poll | pool | reg | cancel
 	Op  *mgrsim.Op `json:"op,omitempty"`
 	Sub int        `json:"sub"`
 	Max int        `json:"max,omitempty"`
@@ -45,6 +46,12 @@ type Ev struct {
 	V2   bool `json:"v2,omitempty"`
 	Bad  bool `json:"bad,omitempty"`
 	Salt int  `json:"salt,omitempty"`
+	// reg / cancel: listener life cycle. reg registers listener L with OnReorg (or OnPoolChange if
+	// Pool); with Reenter the callback calls back into the manager (Tip, PoolTransactions, and for a
+	// reorg listener UpdatesSince from its own index); cancel calls L's cancel function
+	L       int  `json:"l,omitempty"`
+	Pool    bool `json:"pool,omitempty"`
+	Reenter bool `json:"reenter,omitempty"`
 }
 
 // A Case is a tree (regenerated from the seed) and a history.
@@ -99,6 +106,9 @@ type world struct {
 	stats    map[string]int
 	pruned   bool
 	poolNotes int
+	lsts      map[int]*lst
+	lorder    []int
+	dead      bool // the manager deadlocked: the node is abandoned
 	snap     map[int]*chaingen.Ledger // the ledger a subscriber of this node held when it stood on block x
 	ops      []mgrsim.Op
 	f8At     int  // number of ops the expiry-order classification below was made for
@@ -111,6 +121,7 @@ func newWorld(t *chaingen.Tree) *world {
 	w.s.CM.OnPoolChange(func() { w.poolNotes++ })
 	w.s.Observe(&w.prev)
 	w.snap = map[int]*chaingen.Ledger{}
+	w.lsts = map[int]*lst{}
 	w.f8At = -1
 	w.subs[recorderID] = &sub{l: chaingen.NewLedger(), rec: true}
 	w.follow()
@@ -135,7 +146,10 @@ func (w *world) coqIdx(ci types.ChainIndex, bogusID int) string {
 
 func (w *world) doOp(op mgrsim.Op) {
 	before := len(w.notes)
-	o := w.s.Do(op)
+	var o mgrsim.Obs
+	if !w.guarded(op.String(), func() { o = w.s.Do(op) }) {
+		return
+	}
 	if op.Kind == "prune" {
 		w.pruned = true
 	}
@@ -166,6 +180,13 @@ func (w *world) doOp(op mgrsim.Op) {
 	changed := len(o.Best) > 0 && len(w.prev.Best) > 0 && o.Best[0] != w.prev.Best[0]
 	if changed {
 		w.stats["tip-changes"]++
+		if op.Kind == "addv" {
+			w.stats["tip-changes-through-AddValidatedV2Blocks"]++
+		}
+	}
+	w.judgeListeners(op.String(), changed, w.s.CM.Tip(), false)
+	if w.fail != nil {
+		return
 	}
 	if (delta >= 1) != changed || delta > 1 {
 		w.report("c04-notify-mismatch", "%v: OnReorg callback invoked %d time(s), tip changed=%v (%d -> %d), err=%v", op, delta, changed, w.prev.Best[0], o.Best[0], o.Err)
@@ -224,12 +245,7 @@ func (w *world) doPool(ev Ev) {
 	data := []byte(fmt.Sprintf("verif c04 pool submission %d", ev.Salt))
 	var known bool
 	var err error
-	func() {
-		defer func() {
-			if r := recover(); r != nil {
-				w.report("c04-panic", "pool submission (v2=%v bad=%v) panicked: %v", ev.V2, ev.Bad, r)
-			}
-		}()
+	w.guarded(fmt.Sprintf("pool submission (v2=%v bad=%v)", ev.V2, ev.Bad), func() {
 		if ev.V2 {
 			txn := types.V2Transaction{ArbitraryData: data}
 			if ev.Bad {
@@ -245,7 +261,7 @@ func (w *world) doPool(ev Ev) {
 			}
 			known, err = w.s.CM.AddPoolTransactions([]types.Transaction{txn})
 		}
-	}()
+	})
 	if w.fail != nil {
 		return
 	}
@@ -264,6 +280,10 @@ func (w *world) doPool(ev Ev) {
 		w.stats["pool-submissions-rejected-"+kind]++
 	}
 	w.coq = append(w.coq, fmt.Sprintf("EPool %v %v", accepted, delta > 0))
+	w.judgeListeners(fmt.Sprintf("a %s pool submission", kind), false, tip, accepted)
+	if w.fail != nil {
+		return
+	}
 	if w.s.CM.Tip() != tip {
 		w.report("c04-pool-submission-moved-tip", "a %s pool submission moved the tip %v -> %v", kind, tip, w.s.CM.Tip())
 	} else if delta > 0 {
@@ -347,15 +367,7 @@ func (w *world) poll(id int, max int) {
 	var rus []chain.RevertUpdate
 	var aus []chain.ApplyUpdate
 	var err error
-	func() {
-		defer func() {
-			if r := recover(); r != nil {
-				w.report("c04-panic", "UpdatesSince(%v, %d) panicked: %v", sb.idx, max, r)
-			}
-		}()
-		rus, aus, err = w.s.CM.UpdatesSince(sb.idx, max)
-	}()
-	if w.fail != nil && w.fail.kind == "c04-panic" {
+	if !w.guarded(fmt.Sprintf("UpdatesSince(%v, %d)", sb.idx, max), func() { rus, aus, err = w.s.CM.UpdatesSince(sb.idx, max) }) {
 		return
 	}
 	w.stats["polls"]++
@@ -610,12 +622,16 @@ func runCase(cs Case, t *chaingen.Tree) *world {
 			w.poll(ev.Sub, ev.Max)
 		case "pool":
 			w.doPool(ev)
+		case "reg":
+			w.register(ev)
+		case "cancel":
+			w.cancelListener(ev)
 		}
 		if w.fail != nil {
 			return w
 		}
 	}
-	if cs.Final {
+	if cs.Final && w.fail == nil {
 		w.finish(rng.New(cs.Seed ^ 0xfeed))
 	}
 	return w
@@ -635,7 +651,7 @@ func genCase(r *rng.R, regime int, prunes bool) Case {
 	}
 	plan := mgrsim.GenPlan(rng.New(cs.Seed^0x5bd1e995), t, prunes)
 	w := newWorld(t)
-	nsub, salt := 0, 0
+	nsub, salt, nl := 0, 0, 0
 	add := func(ev Ev) {
 		cs.Evs = append(cs.Evs, ev)
 		switch ev.K {
@@ -647,7 +663,15 @@ func genCase(r *rng.R, regime int, prunes bool) Case {
 			w.poll(ev.Sub, ev.Max)
 		case "pool":
 			w.doPool(ev)
+		case "reg":
+			w.register(ev)
+		case "cancel":
+			w.cancelListener(ev)
 		}
+	}
+	if r.Bool() { // a subscriber that syncs from inside its reorg callback
+		nl++
+		add(Ev{K: "reg", L: nl, Reenter: true})
 	}
 	add(Ev{K: "spawn", Sub: nsub, At: -1})
 	nsub++
@@ -693,6 +717,51 @@ func genCase(r *rng.R, regime int, prunes bool) Case {
 			}
 			if w.fail != nil {
 				break
+			}
+		}
+		// listener life cycle: registrations and cancellations in random order, several alive at once
+		if r.Chance(1, 3) {
+			var aliveL []int
+			for _, id := range w.lorder {
+				if w.lsts[id].active {
+					aliveL = append(aliveL, id)
+				}
+			}
+			if len(aliveL) > 0 && (len(aliveL) >= 4 || r.Bool()) {
+				add(Ev{K: "cancel", L: aliveL[r.Intn(len(aliveL))]})
+			} else {
+				nl++
+				add(Ev{K: "reg", L: nl, Pool: r.Chance(1, 3), Reenter: r.Chance(1, 3)})
+			}
+		}
+		// tip changes must also arrive through AddValidatedV2Blocks: the unknown part of the path to a
+		// valid block, if it consists of v2 blocks at or above the require height (its precondition)
+		if r.Chance(1, 4) {
+			x := t.Nodes[1+r.Intn(len(t.Nodes)-1)]
+			if x.ChainValid() {
+				path := t.Path(x)
+				from := len(path) - 1
+				for j, y := range path {
+					if w.prev.Known[y.Idx].State == 0 {
+						from = j
+						break
+					}
+				}
+				ok := true
+				var ids []int
+				for _, y := range path[from:] {
+					if y.Block.V2 == nil || y.Height < t.Env.Net.HardforkV2.RequireHeight || y.TwinOf != nil {
+						ok = false
+					}
+					ids = append(ids, y.Idx)
+				}
+				if ok {
+					av := mgrsim.Op{Kind: "addv", Nodes: ids}
+					add(Ev{K: "op", Op: &av})
+					if w.fail != nil {
+						break
+					}
+				}
 			}
 		}
 		// a pool submission between the manager calls (v1 / v2, now and then one that must be rejected)
@@ -759,9 +828,24 @@ func genCase(r *rng.R, regime int, prunes bool) Case {
 }
 
 func shrink(cs Case, t *chaingen.Tree, kind string) Case {
+	deadline := time.Now().Add(20 * time.Second) // (every candidate that still deadlocks costs a watchdog period)
 	fails := func(c Case) bool {
+		if time.Now().After(deadline) {
+			return false
+		}
 		w := runCase(c, t)
 		return w.fail != nil && w.fail.kind == kind
+	}
+	// everything after the failing step is irrelevant: cut it off first
+	if kind == "c04-manager-deadlock" || kind == "c04-listener-lost-notification" {
+		for n := 1; n < len(cs.Evs); n++ {
+			c := cs
+			c.Evs, c.Final = cs.Evs[:n], false
+			if w := runCase(c, t); w.fail != nil && w.fail.kind == kind {
+				cs = c
+				break
+			}
+		}
 	}
 	for changed := true; changed; {
 		changed = false
@@ -827,6 +911,10 @@ func evString(ev Ev) string {
 		return fmt.Sprintf("spawn(sub %d at %d)", ev.Sub, ev.At)
 	case "pool":
 		return fmt.Sprintf("pool(v2=%v bad=%v #%d)", ev.V2, ev.Bad, ev.Salt)
+	case "reg":
+		return fmt.Sprintf("register(listener %d pool=%v reenter=%v)", ev.L, ev.Pool, ev.Reenter)
+	case "cancel":
+		return fmt.Sprintf("cancel(listener %d)", ev.L)
 	}
 	return fmt.Sprintf("poll(sub %d, max %d)", ev.Sub, ev.Max)
 }
